@@ -1333,6 +1333,14 @@ impl VectorEngine {
         Ok(())
     }
 
+    /// Whether the cached index holds vectors of the query's dimension. A query of another
+    /// dimension must not be answered from the index (the exhaustive path skips such vectors).
+    fn index_dimension_matches(index: &HNSWIndex, query: &[f32]) -> bool {
+        index
+            .get_vector(0)
+            .is_some_and(|v| v.len() == query.len())
+    }
+
     /// Key prefix for embeddings.
     fn embedding_key(key: &str) -> String {
         format!("emb:{key}")
@@ -1624,7 +1632,7 @@ impl VectorEngine {
         {
             let cache = self.hnsw_cache.read();
             if let Some((index, mapping)) = cache.get(collection) {
-                if !mapping.is_empty() {
+                if !mapping.is_empty() && Self::index_dimension_matches(index, query) {
                     let neighbors = index.search(query, top_k);
                     let mut results: Vec<SearchResult> = neighbors
                         .into_iter()
@@ -1978,7 +1986,7 @@ impl VectorEngine {
         {
             let cache = self.hnsw_cache.read();
             if let Some((index, mapping)) = cache.get("_default") {
-                if !mapping.is_empty() {
+                if !mapping.is_empty() && Self::index_dimension_matches(index, query) {
                     let neighbors = index.search(query, top_k);
                     let prefix = Self::embedding_prefix();
                     let mut results: Vec<SearchResult> = neighbors
